@@ -118,7 +118,36 @@ def scenarios(tier):
     # a function whose returning blocks do not all return to the same places (legal IR: hand-edited or partially
     # analysed CFG) and patches that add returns / calls to it
     out.extend(uneven_return_scenarios())
+    out.extend(shared_block_scenarios())
+    # one patch that calls the same function twice (two call edges, one callee), and two such patches
+    spec = c03.make_spec("none", "same", 1, True)
+    for pn in ("callG2", "callX2"):
+        for blk, k in (("X", 1), ("Y", 0), ("K2", 0)):
+            out.append((spec, [{"op": "ins", "b": blk, "k": k, "p": c03.PATCHES[pn]}]))
+        out.append((spec, [{"op": "ins", "b": "X", "k": 1, "p": c03.PATCHES[pn]}, {"op": "ins", "b": "Z", "k": 0, "p": c03.PATCHES["callG2"]}]))
     return [(s, scen.retag(m)) for s, m in out]
+
+
+def shared_block_scenarios():
+    """a tail block that two functions list in their functionBlocks (legal IR: merged / shared tails), edited so that
+    new blocks appear in it"""
+    X = {"n": "X", "k": "c", "i": [["o", 1], ["jmp", "T"]], "f": "f", "e": True}
+    G = {"n": "G", "k": "c", "i": [["o", 7], ["jmp", "T"]], "f": "g", "e": True}
+    T_ = {"n": "T", "k": "c", "i": [["o", 3], ["o", 4], ["ret"]], "f": "f", "e": False}
+    H = {"n": "H", "k": "c", "i": [["o", 5], ["ret"]], "f": "h", "e": True}
+    out = []
+    for order in ([X, G, T_, H], [G, X, T_, H]):
+        import copy
+
+        spec = scen.spec_of(copy.deepcopy(order))
+        spec["tweak"] = "share-block:T:g"
+        for k in (0, 1, 2, 3):
+            out.append((spec, [{"op": "ins", "b": "T", "k": k, "p": [["lab", ".Lx"], ["p", 0], ["jcc", ".Lx"], ["p", 0]]}]))
+            out.append((spec, [{"op": "ins", "b": "T", "k": k, "p": [["call", "H"], ["p", 0]]}]))
+        out.append((spec, [{"op": "ins", "b": "T", "k": 1, "p": [["p", 0]]}]))
+        out.append((spec, [{"op": "rep", "b": "T", "k": 1, "n": 1, "p": [["p", 0], ["jcc", "X"], ["p", 0]]}]))
+        out.append((spec, [{"op": "ins", "b": "T", "k": 1, "p": [["p", 0], ["jcc", "H"], ["p", 0]]}, {"op": "del", "b": "X", "k": 0, "n": 2}]))
+    return out
 
 
 def uneven_return_scenarios():
@@ -145,6 +174,15 @@ def _prepare(spec):
         return None
 
     def prep(w):
+        if tw.startswith("share-block:"):
+            import gtirb_functions
+
+            _, blk, fname = tw.split(":")
+            names = w.m.aux_data["functionNames"].data
+            (u,) = [u for u, sy in names.items() if sy.name == Lg.fsym_name(fname)]
+            w.m.aux_data["functionBlocks"].data[u].add(w.blocks[blk])
+            w.funcs = gtirb_functions.Function.build_functions(w.m)
+            return
         _, src, dst = tw.split(":")
         for e in list(w.ir.cfg.out_edges(w.blocks[src])):
             if e.label.type == gtirb.Edge.Type.Return and e.target is w.blocks[dst]:
